@@ -69,6 +69,12 @@ def run(tier, seed):
                     for comp in rng.sample([0x1111, 0x2222, 0x3333, 0x8888, 0x5A5A, 0x6B6B], rng.randrange(1, 4)):
                         p['sections'].append({'kind': 'ud', 'hdr': dict(apel.gen_hdr(rng), comp=comp, sub=7), 'payload': b'payload'})
             d = clirun.keep_decodable(env, d0)
+            if len(d) >= 5 and len(cases) % 3 == 0:
+                # designed names: one stem a prefix of another, followed by a character that sorts below / above the dot, with and without extension,
+                # upper and lower case -- the order of the NAMES differs from the order of (stem, extension) pairs, of lower-cased names, of stems
+                ORDER_NAMES = ['a.pel', 'a-b.pel', 'a', 'a.', 'a.b.pel', 'A.pel', 'a_1', 'a0.pel', 'a-b', 'a+.pel', 'a .pel', 'B', 'b.PEL', 'a.pel.bak', '10.pel', '9.pel']
+                picked = rng.sample(ORDER_NAMES, min(len(d), len(ORDER_NAMES)))
+                d = [(picked[i], p_) if i < len(picked) else (n_, p_) for i, (n_, p_) in enumerate(d)]
             files = [(n, apel.enc_pel(p)) for n, p in d]
             path = clirun.make_dir(files, subdirs={'archive': [('old_' + (files[0][0] if files else 'x'), files[0][1] if files else b'PH')]} if rng.random() < 0.5 else None)
             for _ in range(4):
